@@ -418,7 +418,7 @@ func main() {
 				want = append(want, sh)
 			}
 			got := sp.s.Polygon(poly.Clone())
-			if !got.Equal(want) {
+			if !refgeom.Equal(got, want) {
 				c.Failf("polygon", "%s.Polygon(%v) = %v, want %v", sp.name, poly, got, want)
 			}
 			other := orb.Polygon{outerCat[0].Clone()}
@@ -431,14 +431,14 @@ func main() {
 				wm = append(wm, so2)
 			}
 			gm := sp.s.MultiPolygon(mp.Clone())
-			if !gm.Equal(wm) {
+			if !refgeom.Equal(gm, wm) {
 				c.Failf("multipolygon", "%s.MultiPolygon(%v) = %v, want %v", sp.name, mp, gm, wm)
 			}
 			ls := orb.LineString(hole.Clone())
 			mls := orb.MultiLineString{ls.Clone(), orb.LineString(outer.Clone())}
 			gl := sp.s.MultiLineString(mls.Clone())
 			wl := orb.MultiLineString{sp.s.LineString(ls.Clone()), sp.s.LineString(orb.LineString(outer.Clone()))}
-			if !gl.Equal(wl) {
+			if !refgeom.Equal(gl, wl) {
 				c.Failf("multilinestring", "%s.MultiLineString(%v) = %v, want %v", sp.name, mls, gl, wl)
 			}
 			// generic entry point equals the typed function for every kind
